@@ -26,6 +26,7 @@ def run(tier, seed, update_lock=False):
         R.prove(x)
     for x in units[:4]:
         R.canary_check(x)
+    R.lemma('Sums.lean', 'finite sums: row total of non-negative entries >= each entry (ghost axiom of the Prinz contract); prefix sums of non-negative block widths are monotone, bounded by the total, every position lies in one block (trusted facts of the concatenation primitives)')
     R.conformance('C03.py', units[:1])
     R.bounded('C03.py', 'run-time contract = the statement (brute-force pair count) on the real assigns_to_counts; relational clauses',
               'all trajectory sets <= 3 x length <= 4 over 3 states (strided in quick), lags 1..5, sliding on/off, padded/ragged/reordered/split, scale cases')
